@@ -6,29 +6,21 @@ from lib import Check, cargo_build
 PROP = "C09"
 
 
-def run(tier):
-    c = Check(PROP, tier)
-    wd = lib.workdir("c09")
-    out = os.path.join(wd, "sendsync.out")
-    r = lib.run_tlc("SendSync", "SendSync.cfg", workers=1, timeout=300, out_path=out)
-    jl = os.path.join(wd, "pred.jsonl")
-    if lib.extract_replays(out, jl) != 1:
-        raise lib.ToolError("SendSync.tla printed no matrix")
-    pred = json.loads(open(jl).read())
-    c.add_tlc("SendSync.cfg", r)
-    predicted = {(x["w"], x["i"], x["p"]): x for x in pred["cells"]}
-    bindir = cargo_build("probes", bins=["sendprobe"])
-    rc, _, outp = lib.run_adapter([os.path.join(bindir, "sendprobe")])
-    if rc != 0:
-        raise lib.ToolError("send/sync probe failed to run")
-    cells = json.loads(outp.strip().splitlines()[-1])
-    known = {k["site"]: k for k in lib.known_findings(PROP)}
-    n_eval = n_viol_known = 0
-    seen_sites = set()
+class _Tag:
+    """adds the library configuration to every violation message of one evaluation"""
+    def __init__(self, c, cfg):
+        self._c, self._cfg = c, cfg
+    def violation(self, msg, *a, **k):
+        return self._c.violation(msg + self._cfg, *a, **k)
+    def __getattr__(self, n):
+        return getattr(self._c, n)
+
+
+def evaluate(c, cells, predicted, known, seen_sites, beyond, cfg, n_eval, n_viol_known):
+    c = _Tag(c, cfg)
     # the property speaks about the *instance handle* the object was built from: its markers are the
     # reference for objects, groups and Fwd wrappers built on it
     inst_base = {(x["i"], x["p"]): x["base"] for x in cells if x["w"] == "inst" and x["exists"]}
-    beyond = []
     for cell in cells:
         key = (cell["w"], cell["i"], cell["p"])
         if not cell["exists"]:
@@ -101,6 +93,44 @@ def run(tier):
                     c.drift("convertibility of %s/%s/%s: observed %s, ImplRules predict %s" % (cell["w"], cell["i"], cell["p"], cell["conv"], p["conv"]))
                 elif cell["conv"] and cell["opaque"][m] != p["opaque"][m]:
                     c.drift("opaque %s/%s/%s %s: observed %s, ImplRules predict %s" % (cell["w"], cell["i"], cell["p"], m, cell["opaque"][m], p["opaque"][m]))
+
+    return n_eval, n_viol_known
+
+
+def run(tier):
+    c = Check(PROP, tier)
+    wd = lib.workdir("c09")
+    out = os.path.join(wd, "sendsync.out")
+    r = lib.run_tlc("SendSync", "SendSync.cfg", workers=1, timeout=300, out_path=out)
+    jl = os.path.join(wd, "pred.jsonl")
+    if lib.extract_replays(out, jl) != 1:
+        raise lib.ToolError("SendSync.tla printed no matrix")
+    pred = json.loads(open(jl).read())
+    c.add_tlc("SendSync.cfg", r)
+    predicted = {(x["w"], x["i"], x["p"]): x for x in pred["cells"]}
+    bindir = cargo_build("probes", bins=["sendprobe"])
+    rc, _, outp = lib.run_adapter([os.path.join(bindir, "sendprobe")])
+    if rc != 0:
+        raise lib.ToolError("send/sync probe failed to run")
+    cells = json.loads(outp.strip().splitlines()[-1])
+    known = {k["site"]: k for k in lib.known_findings(PROP)}
+    n_eval = n_viol_known = 0
+    seen_sites = set()
+    beyond = []
+    # the library in its other configuration (cglue without the `std` feature): the same probe, the same matrix
+    import subprocess
+    crate = os.path.join(lib.HARNESS, "probes_nostd")
+    open(os.path.join(crate, "Cargo.lock"), "w").write(open(os.path.join(lib.HARNESS, "Cargo.lock.repo")).read())
+    td = os.path.join(lib.HARNESS, "target", "probes_nostd")
+    pb = subprocess.run(["cargo", "build", "--offline", "--target-dir", td], cwd=crate, capture_output=True, text=True, env=lib.cargo_env())
+    if pb.returncode != 0:
+        raise lib.ToolError("the probe does not build against cglue without the std feature:\n" + pb.stderr[-1500:])
+    rc2, _, outp2 = lib.run_adapter([os.path.join(td, "debug", "sendprobe_nostd")])
+    if rc2 != 0:
+        raise lib.ToolError("send/sync probe (no std) failed to run")
+    cells_nostd = json.loads(outp2.strip().splitlines()[-1])
+    for cfg_label, cells in (("", cells), (" [cglue built without the std feature]", cells_nostd)):
+        n_eval, n_viol_known = evaluate(c, cells, predicted, known, seen_sites, beyond, cfg_label, n_eval, n_viol_known)
     c.cov["beyond_the_property_information_only"] = beyond
     cells = [x for x in cells if x["w"] not in ("view", "mcall")]
     c.sample(cells[0])
